@@ -19,13 +19,14 @@ asked in the same way for both forms.
 import re
 
 from .lib import PLUMBING, callee_allow, closure_args_of_call
-from .lib_c01 import access_path
+from .lib_c01 import access_path, sources
 
 SEND = r"yielder::Sender::<T>::send$"
 UNFOLD = r"(^|::)stream::(try_unfold::)?try_unfold$"
 INTO_DATA = r"Frame::<T>::into_data$"
 FRAME = r"BodyExt::frame$"
 LEN = r"bytes::Bytes::len$|bytes::Buf::remaining$"
+DUMP = r"http_util::http_dump_body$"
 ADDS = ("Add", "AddWithOverflow", "AddUnchecked")
 
 
@@ -37,10 +38,11 @@ class Event:
     """One step outcome.  kind: data | err | end | other.  bb: block deciding it.  sl: slice of the delivered value
     (try_stream: of the whole `Ok(v)` / `Err(e)` argument of send; try_unfold: of the item v / of the error e).
     state: (try_unfold data events) operand holding the next state."""
-    __slots__ = ("bb", "kind", "sl", "node", "state", "what")
+    __slots__ = ("bb", "kind", "sl", "node", "state", "what", "origins")
 
     def __init__(self, bb, kind, sl, node, state=None, what=""):
         self.bb, self.kind, self.sl, self.node, self.state, self.what = bb, kind, sl, node, state, what
+        self.origins = []       # lib_c01 Paths: where the delivered payload / error value comes from (variant-precise)
 
 
 def _single_def(fn, l):
@@ -137,6 +139,60 @@ class StreamModel:
         raise NotImplementedError
 
 
+# =============================================================================== precise origins
+ERR_CONV = [r"convert::Into::into$", r"convert::From::from$", r"ops::Try::branch$"]
+VALUE_KEEPING = [r"clone::Clone::clone$", r"ops::Deref::deref$", r"ops::DerefMut::deref_mut$", r"convert::AsRef::as_ref$", r"borrow::Borrow::borrow$"]
+
+
+def origins_of(g, x, transparent=ERR_CONV):
+    """Every value an operand / place of g may hold (lib_c01.sources: variant-precise through multi-definition locals
+    and through enum wrappers built in g, so that the value of `helper().await?` spliced from an async helper is the
+    helper's own `Err(ctor(..))` / `Ok(Some(data))` and never the sibling variant), looking through error conversions."""
+    return sources(g, x, transparent=transparent)
+
+
+def _sum_operands(g, x):
+    """If operand/place x is `a + b` (overflow-checked or not) or `a.saturating_add(b)`, possibly let-bound: (a, b)."""
+    p = access_path(g, x)
+    if p.root[0] == "call" and re.search(r"num::<impl usize>::saturating_add$", p.root[2]) and not p.path and not p.calls and len(p.root[4]["args"]) == 2:
+        return p.root[4]["args"][0], p.root[4]["args"][1]
+    if p.root[0] != "local" or p.path not in ([], ["0"]) or p.calls:
+        return None
+    d = _single_def(g, p.root[1])
+    if d is None or d[1] != "assign" or d[2]["pl"]["p"] or d[2]["rv"]["rv"] != "binop" or d[2]["rv"]["op"] not in ADDS:
+        return None
+    if (d[2]["rv"]["op"] == "AddWithOverflow") != (p.path == ["0"]):
+        return None
+    return d[2]["rv"]["a"], d[2]["rv"]["b"]
+
+
+def failure_splits(g):
+    """Where the outcome of reading the body is split into its two cases: switches on the discriminant of a Result (or
+    of the ControlFlow `?` makes of it) whose scrutinee is the output of awaiting `BodyExt::frame` (kind "frame": the
+    `Result<Frame, E>` inside its `Option`) or `http_dump_body` (kind "drain"), however it is reached — `while let
+    Some(r) = body.frame().await` + `r.map_err(..)?`, a nested match `Some(Err(e)) => ..`, a let-else.
+    [{switch_bb, ok, err, kind}]"""
+    out = []
+    for sbb, st in g.switches():
+        info = g.switch_on(sbb)
+        if info.get("kind") != "discr" or info.get("adt") not in ("std::result::Result", "std::ops::ControlFlow"):
+            continue
+        p = access_path(g, info["place"], transparent=[r"ops::Try::branch$"])
+        if p.root[0] != "call" or not re.search(r"Future::poll$", p.root[2]) or not p.root[4]["args"]:
+            continue
+        fs = g.slice(p.root[4]["args"][0])
+        fr, dr = fs.has_call(FRAME), fs.has_call(DUMP)
+        if fr == dr:
+            continue
+        names = {n: i for i, n in info["variants"].items()}
+        okv = names.get("Ok", names.get("Continue"))
+        erv = names.get("Err", names.get("Break"))
+        if okv is None or erv is None:
+            continue
+        out.append({"switch_bb": sbb, "ok": g.switch_target(sbb, okv), "err": g.switch_target(sbb, erv), "kind": "frame" if fr else "drain"})
+    return out
+
+
 # =============================================================================== (a) try_stream!
 class TryStreamModel(StreamModel):
     form = "try_stream"
@@ -146,15 +202,28 @@ class TryStreamModel(StreamModel):
         StreamModel.__init__(self, facts, top, g)
         for bb, t in g.live_calls(SEND):
             sl = g.slice(t["args"][1])
+            # what is sent: the variant(s) of the Result literal(s) the argument can be, and where the payload comes from
+            lits = origins_of(g, t["args"][1], transparent=())
+            variants = set(p.root[2].get("variant") if p.root[0] == "agg" and p.root[2].get("adt") == "std::result::Result" and not p.path else None for p in lits)
             kind = "other"
-            if sl.has_call(INTO_DATA):
-                kind = "data"
-            elif ("agg", "std::result::Result", "Err") in sl.atoms:
+            orig = []
+            if variants == {"Ok"}:
+                for p in lits:
+                    orig += origins_of(g, p.root[2]["ops"][0], transparent=())
+                if orig and all(o.root[0] == "call" and re.search(INTO_DATA, o.root[2]) for o in orig):
+                    kind = "data"
+            elif variants == {"Err"}:
                 kind = "err"
-            self.events.append(Event(bb, kind, sl, t, what="yield"))
-        # the cap upvar: field of the generator state that into_stream filled from self.cap
+                for p in lits:
+                    orig += origins_of(g, p.root[2]["ops"][0])
+            ev = Event(bb, kind, sl, t, what="yield")
+            ev.origins = orig
+            self.events.append(ev)
+        # the generator's captured variables: the cap itself (`self.cap` captured by value / by reference), or the whole
+        # `self` (when the generator also calls methods on it), whose cap is then read as a field of the capture
         self.cap_fields = set()          # strict: self.cap through plumbing only (R1)
         self.cap_fields_loose = set()    # any value derived from self.cap (R6 census of comparisons with the cap)
+        self.self_fields = set()         # the whole `self`, moved in unchanged
         for bb, i, st in top.stmts():
             if st["rv"]["rv"] == "agg" and st["rv"].get("def") == g.raw["id"]:
                 for idx, op in enumerate(st["rv"]["ops"]):
@@ -163,20 +232,69 @@ class TryStreamModel(StreamModel):
                         self.cap_fields_loose.add(idx)
                         if not callee_allow(s, PLUMBING):
                             self.cap_fields.add(idx)
+                    elif op.get("k") in ("copy", "move"):
+                        p = access_path(top, op)
+                        if p.root == ("param", 1) and not p.path and not p.calls:
+                            self.self_fields.add(idx)
+
+    def _cap_writes(self):
+        """Statements of the generator that assign to, or mutably borrow, the `cap` field of a captured `self`."""
+        g = self.g
+        bad = []
+        live = g.reachable(0)
+
+        def is_self_cap(pl):
+            p = access_path(g, pl)
+            return p.root == ("param", 1) and len(p.path) >= 2 and p.path[0].isdigit() and int(p.path[0]) in self.self_fields and p.path[1] == "cap"
+        for bb, i, st in g.stmts():
+            if bb not in live:
+                continue
+            if st["pl"]["p"] and is_self_cap(st["pl"]):
+                bad.append("bb%d assigns self.cap" % bb)
+            rv = st["rv"]
+            if rv["rv"] in ("ref", "rawptr") and (rv.get("mut") or rv["rv"] == "rawptr") and rv["pl"]["p"] and is_self_cap(rv["pl"]):
+                bad.append("bb%d borrows self.cap mutably" % bb)
+        return bad
 
     def cap_source(self):
-        return len(self.cap_fields) == 1, "coroutine upvar(s) filled from self.cap: %s" % sorted(self.cap_fields)
+        if len(self.cap_fields) == 1 and not self.self_fields:
+            return True, "coroutine upvar(s) filled from self.cap: %s" % sorted(self.cap_fields)
+        if len(self.self_fields) == 1 and not self.cap_fields:
+            wr = self._cap_writes()
+            return not wr, "the generator captures the whole `self` (capture %s) and reads its cap; self.cap is never assigned or mutably borrowed inside the generator: %s%s" % (
+                sorted(self.self_fields), not wr, "" if not wr else " — " + "; ".join(wr))
+        return False, "coroutine upvar(s) filled from self.cap: %s, from the whole self: %s" % (sorted(self.cap_fields), sorted(self.self_fields))
 
     def is_cap(self, op):
-        g = self.g
-        s = g.slice(op)
-        pf = s.param_fields()
-        return bool(pf) and all(p[0] == 1 and any(e.startswith("f%d:" % c) for c in self.cap_fields for e in p[1]) for p in pf) and not callee_allow(s, PLUMBING) \
-            and not any(a[0] == "binop" for a in s.atoms)
+        if op.get("k") == "const":
+            return False
+        p = access_path(self.g, op, transparent=VALUE_KEEPING)
+        if p.root != ("param", 1) or not p.path or not p.path[0].isdigit():
+            return False
+        k = int(p.path[0])
+        return (k in self.cap_fields and len(p.path) == 1) or (k in self.self_fields and p.path[1:] == ["cap"])
 
     def mentions_cap(self, op):
         s1 = self.g.slice(op)
-        return any(p[0] == 1 and any(e.startswith("f%d:" % c) for c in self.cap_fields_loose for e in p[1]) for p in s1.param_fields())
+        for pn, proj in s1.param_fields():
+            if pn != 1 or not proj:
+                continue
+            if any(proj[0].startswith("f%d:" % c) for c in self.cap_fields_loose):
+                return True
+            if any(proj[0].startswith("f%d:" % c) for c in self.self_fields) and any(e.endswith(":cap") for e in proj[1:]):
+                return True
+        return False
+
+    def _count_plus_len(self, x, rv=None):
+        """x = (running count: a local of the generator that is re-assigned) + Bytes::len(payload): (count local, len call term)."""
+        parts = _sum_operands(self.g, x) if rv is None else ((rv["a"], rv["b"]) if rv.get("op") in ("Add", "AddUnchecked") else None)
+        if not parts:
+            return None
+        pa, pb = access_path(self.g, parts[0]), access_path(self.g, parts[1])
+        for u, v in ((pa, pb), (pb, pa)):
+            if u.root[0] == "local" and not u.path and not u.calls and v.root[0] == "call" and re.search(LEN, v.root[2]) and not v.path and not v.calls:
+                return u.root[1], v.root[4]
+        return None
 
     def cap_guards(self, into_bbs):
         from .engine import comparison_of, normalise_le
@@ -187,58 +305,44 @@ class TryStreamModel(StreamModel):
             if not cmp:
                 continue
             for rel, x, y, edge in normalise_le(cmp):
-                if rel not in ("le", "lt"):
+                if rel not in ("le", "lt") or not self.is_cap(y):
                     continue
-                if not self.is_cap(y):
+                cl = self._count_plus_len(x)
+                if cl is None:
                     continue
-                xs = g.slice(x)
-                if not any(a[0] == "binop" and a[1] in ADDS for a in xs.atoms) and not xs.has_call(r"checked_add|saturating_add|wrapping_add"):
-                    continue
-                lens = xs.calls(LEN)
-                len_ok = bool(lens) and all(set(b for _, b, _ in g.slice(lt["args"][0]).calls(INTO_DATA)) == into_bbs for _, _, lt in lens)
-                guards.append({"bb": wbb, "rel": rel, "edge": edge, "target": cmp[edge], "len_ok": len_ok, "sum": xs, "lens": lens})
+                acc, lt = cl
+                len_ok = bool(into_bbs) and set(o.root[3] for o in origins_of(g, lt["args"][0], transparent=VALUE_KEEPING) if o.root[0] == "call" and re.search(INTO_DATA, o.root[2])) == set(into_bbs) \
+                    and all(o.root[0] == "call" and re.search(INTO_DATA, o.root[2]) for o in origins_of(g, lt["args"][0], transparent=VALUE_KEEPING))
+                guards.append({"bb": wbb, "rel": rel, "edge": edge, "target": cmp[edge], "other": cmp["false" if edge == "true" else "true"], "len_ok": len_ok,
+                               "sum": g.slice(x), "lens": [(lt["callee"], wbb, lt)], "acc": acc})
         return guards
 
     def accumulates(self, gd, ev):
-        """The non-len operand of the compared sum is a local initialised to 0 outside the loop and advanced by the
-        same len on every accepted iteration before the next frame is requested."""
-        import json
+        """The running count (the non-len operand of the compared sum) is a local initialised to 0 outside the loop and
+        advanced by the same len on every accepted iteration before the next frame is requested."""
         g = self.g
-        acc_locals = set()
+        acc = gd["acc"]
         len_dests = set(lt["dest"]["l"] for _, _, lt in gd["lens"])
-        for p in gd["sum"].places:
-            pl = json.loads(p)
-            if pl["p"]:
+        ds = g.defs().get(acc, [])
+        inits = [(b, n) for b, k, n in ds if k == "assign" and n["rv"]["rv"] == "use" and n["rv"]["op"].get("k") == "const"]
+        upds = [(b, n) for b, k, n in ds if not (k == "assign" and n["rv"]["rv"] == "use" and n["rv"]["op"].get("k") == "const")]
+        init_zero = len(inits) == 1 and inits[0][1]["rv"]["op"].get("val", {}).get("int") == 0 and inits[0][0] not in g.loop_blocks()
+        upd_ok = True
+        upd_blocks = []
+        for b, n in upds:
+            if "rv" not in n or n["pl"]["p"]:
+                upd_ok = False
                 continue
-            ds = g.defs().get(pl["l"], [])
-            if any(k == "assign" and n["rv"]["rv"] == "use" and n["rv"]["op"].get("k") == "const" for _, k, n in ds) and len(ds) >= 2:
-                acc_locals.add(pl["l"])
-        detail = "no accumulator local (initialised from a constant and re-assigned) found in the compared sum"
-        for acc in acc_locals:
-            ds = g.defs()[acc]
-            inits = [(b, n) for b, k, n in ds if k == "assign" and n["rv"]["rv"] == "use" and n["rv"]["op"].get("k") == "const"]
-            upds = [(b, n) for b, k, n in ds if not (k == "assign" and n["rv"]["rv"] == "use" and n["rv"]["op"].get("k") == "const")]
-            init_zero = len(inits) == 1 and inits[0][1]["rv"]["op"].get("val", {}).get("int") == 0 and inits[0][0] not in g.loop_blocks()
-            upd_ok = True
-            upd_blocks = []
-            for b, n in upds:
-                if "rv" not in n:
-                    upd_ok = False
-                    continue
-                us = g.slice(n["rv"]["op"]) if n["rv"]["rv"] == "use" else g.slice({"k": "copy", "pl": n["pl"]})
-                has_add = any(a[0] == "binop" and a[1] in ("Add", "AddWithOverflow") for a in us.atoms)
-                same_len = bool(set(t2["dest"]["l"] for _, _, t2 in us.calls(LEN)) & len_dests)
-                if not (has_add and same_len and us.touches_local(acc)):
-                    upd_ok = False
-                upd_blocks.append(b)
-            # every accepted iteration passes an update before the next frame is requested
-            frame_bbs = [b for b, _ in g.live_calls(FRAME)]
-            passes = bool(upd_blocks) and not any(fb in g.reachable(gd["target"], avoid=upd_blocks) for fb in frame_bbs)
-            detail = "accumulator _%d: initialised to 0 outside the loop=%s, %d update(s) all `+= len` of this payload=%s, every accepted iteration passes an update before the next frame=%s" % (
-                acc, init_zero, len(upds), upd_ok, passes)
-            if init_zero and upd_ok and passes and upds:
-                return True, detail
-        return False, detail
+            cl = self._count_plus_len(n["rv"]["op"]) if n["rv"]["rv"] == "use" else self._count_plus_len(None, n["rv"]) if n["rv"]["rv"] == "binop" else None
+            if cl is None or cl[0] != acc or cl[1]["dest"]["l"] not in len_dests:
+                upd_ok = False
+            upd_blocks.append(b)
+        # every accepted iteration passes an update before the next frame is requested
+        frame_bbs = [b for b, _ in g.live_calls(FRAME)]
+        passes = bool(upd_blocks) and not any(fb in g.reachable(gd["target"], avoid=upd_blocks) for fb in frame_bbs)
+        detail = "accumulator _%d: initialised to 0 outside the loop=%s, %d update(s) all `+= len` of this payload=%s, every accepted iteration passes an update before the next frame=%s" % (
+            acc, init_zero, len(upds), upd_ok, passes)
+        return bool(init_zero and upd_ok and passes and upds), detail
 
 
 # =============================================================================== (b) try_unfold
@@ -398,7 +502,11 @@ class TryUnfoldModel(StreamModel):
         g = self.g
         if kind == "call":
             if re.search(r"FromResidual::from_residual$", node.get("callee") or "") and not node["dest"]["p"]:
-                return Event(bb, "err", g.slice(node["args"][0]), node, what="`?`")
+                ev = Event(bb, "err", g.slice(node["args"][0]), node, what="`?`")
+                # (the operand of from_residual is the residual `Result<Infallible, E>`: the error is its Err payload)
+                a = node["args"][0]
+                ev.origins = origins_of(g, {"l": a["pl"]["l"], "p": list(a["pl"]["p"]) + [{"dc": "Err", "v": 1}, {"f": 0, "n": ""}]}) if a.get("k") in ("copy", "move") else []
+                return ev
             return Event(bb, "other", g.slice({"l": 0, "p": []}), node, what="call %s" % node.get("callee"))
         if node["pl"]["p"]:
             return Event(bb, "other", None, node, what="partial write of the step result")
@@ -411,7 +519,9 @@ class TryUnfoldModel(StreamModel):
         if rv["rv"] != "agg" or rv.get("adt") != "std::result::Result":
             return Event(bb, "other", None, node, what="step result is not a Result literal")
         if rv["variant"] == "Err":
-            return Event(bb, "err", g.slice(rv["ops"][0]), node, what="Err(..)")
+            ev = Event(bb, "err", g.slice(rv["ops"][0]), node, what="Err(..)")
+            ev.origins = origins_of(g, rv["ops"][0])
+            return ev
         inner = _agg_def(g, rv["ops"][0])
         if inner is None or inner[1].get("adt") != "std::option::Option":
             return Event(bb, "other", None, node, what="Ok(<option not built here>)")
@@ -421,7 +531,9 @@ class TryUnfoldModel(StreamModel):
         if pair is None or pair[1].get("agg") != "tuple" or len(pair[1]["ops"]) != 2:
             return Event(bb, "other", None, node, what="Ok(Some(<pair not built here>))")
         item, state = pair[1]["ops"]
-        return Event(bb, "data", g.slice(item), node, state=state, what="Ok(Some((item, next)))")
+        ev = Event(bb, "data", g.slice(item), node, state=state, what="Ok(Some((item, next)))")
+        ev.origins = origins_of(g, item, transparent=())
+        return ev
 
     # ---- the cap
     def _carriers(self):
@@ -500,7 +612,8 @@ class TryUnfoldModel(StreamModel):
                 P, ln = cl
                 lt = ln[2]
                 len_ok = set(b for _, b, _ in g.slice(lt["args"][0]).calls(INTO_DATA)) == into_bbs and bool(into_bbs)
-                guards.append({"bb": wbb, "rel": rel, "edge": edge, "target": cmp[edge], "len_ok": len_ok, "sum": g.slice(x), "lens": [(lt["callee"], ln[1], lt)], "count": P})
+                guards.append({"bb": wbb, "rel": rel, "edge": edge, "target": cmp[edge], "other": cmp["false" if edge == "true" else "true"], "len_ok": len_ok, "sum": g.slice(x),
+                               "lens": [(lt["callee"], ln[1], lt)], "count": P})
         return guards
 
     def accumulates(self, gd, ev):
